@@ -30,6 +30,10 @@ type RunSpec struct {
 	Tries     int               `json:"replay_tries"`
 	Workers   int               `json:"workers"`
 	MaxWallS  int               `json:"max_wall_s"`
+	// labels (regexp) whose observable exists only inside the engine (ghost
+	// lock state, lock sets): a witness is confirmed by re-running the real
+	// code in the engine with every input fixed to the model's values
+	EngineConfirm string `json:"engine_confirm"`
 }
 
 type PropSpec struct {
@@ -486,6 +490,21 @@ func checkMain(args []string) {
 					reproduced = true
 					validated++
 					break
+				}
+			}
+			if !reproduced && rs.EngineConfirm != "" && len(g.vs) > 0 {
+				if m, _ := regexp.MatchString(rs.EngineConfirm, g.vs[0].Label); m {
+					fl := *ls
+					fl.Fixed = g.vs[0].Model
+					r2 := explore(pl, &fl, exploreOpts{Workers: 1, MaxPaths: 50, Samples: 0, MaxViol: 50})
+					for _, v2 := range r2.Violations {
+						if v2.Label == g.vs[0].Label {
+							reproduced = true
+							validated++
+							fmt.Printf("  witness for %q confirmed by a concrete engine run (observable is engine-only ghost state)\n", k)
+							break
+						}
+					}
 				}
 			}
 			switch {
